@@ -168,6 +168,31 @@ ULTRA_SRC_TWO_PRINTS = HDR + 'u = Ultrasonic(7, 8)\nwhile True:\n    mon.write(u
 ULTRA_SRC_TWO = HDR + 'u = Ultrasonic(7, 8)\nwhile True:\n    a = u.measure_distance()\n    b = u.measure_distance()\n    mon.write(a)\n    mon.write(b)\n'
 
 
+ULTRA_SRC_TWO_SENSORS = HDR + ('front = Ultrasonic(7, 8)\nrear = Ultrasonic(5, 6)\nwhile True:\n    mon.write(front.measure_distance())\n'
+                               '    mon.write(rear.measure_distance())\n')
+
+
+def ultra_two_sensors_analyse(events, ctx):
+    """Two sensors measured alternately: the trace is cut at the printed results (one call each), the calls of each
+    sensor are put together and analysed as that sensor's own history - a sensor never reports the other's reading."""
+    segments, cur = [], []
+    for ev in events:
+        cur.append(ev)
+        if ev[0] == "ser" and ev[1][0] == "c" and (ev[1][1] == 10 or getattr(ev[1][1], "v", None) == 10):
+            segments.append(cur)
+            cur = []
+    claims = [("both sensors measured in every pass", len(segments) % 2 != 0 or not segments)]
+    for k, (name, trig, echo) in enumerate((("front", 7, 8), ("rear", 5, 6))):
+        own = [e for seg in segments[k::2] for e in seg]
+        other_pins = (5, 6) if name == "front" else (7, 8)
+        for e in own:
+            if e[0] in ("digitalWrite", "pulseIn") and e[1].concrete and e[1].v in other_pins:
+                claims.append((f"{name}: a measurement touches only its own pins", True))
+        for cname, bad in [(c[0], c[1:]) for c in ultra_analyse(trig, echo)(own, ctx)]:
+            claims.append((f"{name}: {cname}",) + tuple(bad))
+    return claims
+
+
 def _u64(v):
     if isinstance(v, BV):
         return z3.BitVecVal(v.v, 64) if v.concrete else (z3.ZeroExt(64 - v.w, v.v) if v.w < 64 else v.v)
@@ -316,7 +341,8 @@ def _work(item):
     if kind == "ultra":
         _, oid, src, trig, echo, passes = item[:6]
         wrap = len(item) > 6 and item[6]
-        return FwSpec(oid, src, ultra_analyse(trig, echo), passes=passes, max_paths=3000, budget_s=600, clock_wrap=wrap,
+        analyse = ultra_two_sensors_analyse if trig is None else ultra_analyse(trig, echo)
+        return FwSpec(oid, src, analyse, passes=passes, max_paths=3000, budget_s=600, clock_wrap=wrap,
                       describe="ultrasonic helper over a call history with symbolic echoes and clock"
                                + (" (free-running modular millisecond counter: wrap-around included)" if wrap else "")).run()
     if kind == "pot":
@@ -340,6 +366,7 @@ def run(tier, seed, only=None):
         items.append(("pot", f"pot/{name}", src, 2))
     items.append(("ultra", "ultrasonic/two_calls", ULTRA_SRC, 7, 8, 2))
     items.append(("ultra", "ultrasonic/keywords", ULTRA_SRC_KW, 5, 6, 1))
+    items.append(("ultra", "ultrasonic/two_sensors", ULTRA_SRC_TWO_SENSORS, None, None, 1 if tier == "quick" else 2))
     # two calls in one pass with the millisecond counter allowed to wrap between any two readings
     items.append(("ultra", "ultrasonic/wrap_two_calls_one_pass", ULTRA_SRC_TWO_PRINTS, 7, 8, 1, True))
     if tier == "thorough":
